@@ -19,8 +19,9 @@ def sched(fn, T, **kw):
 
 CHECKS = {
     "C01": {
-        "explanation": "Inductive steps: Put, Get (synchronous paths) and NewConsumer executed symbolically from an arbitrary valid Buffer state (<= 4 retained values, symbolic 62-bit offset, <= 2 consumers with symbolic committed offsets and deltas) refine one step of the FIFO specification.",
-        "quick": [seq("Harness_C01_get_step"), seq("Harness_C01_put_step"), seq("Harness_C01_put_cancelled"), seq("Harness_C01_newconsumer_step"), sched("Harness_C02_get_atomic", 18)],
+        "explanation": "Inductive steps: Put, Get (synchronous paths) and NewConsumer executed symbolically from an arbitrary valid Buffer state (<= 4 retained values, symbolic 62-bit offset, <= 2 consumers with symbolic committed offsets and deltas) refine one step of the FIFO specification; a Get blocked in the asynchronous path is atomic w.r.t. a concurrent Commit/Rollback (T=18); two racing Puts, one carrying a batch of 1100 values, never interleave their values (T=10).",
+        "quick": [seq("Harness_C01_get_step"), seq("Harness_C01_put_step"), seq("Harness_C01_put_cancelled"), seq("Harness_C01_newconsumer_step"), sched("Harness_C02_get_atomic", 18),
+                  sched("Harness_C01_put_batches_contiguous", 10, settle_feas=1)],
         "thorough": [],
         "assumptions": ["representation invariant of verifArbitraryBuffer (harness/ac_buffer_support.go)", "absolute offsets below 2^62"],
     },
